@@ -3,7 +3,7 @@ import BrushVerif.Model.Accumulate
 /-! Driver for C15.
 * `acc <lines> <table>` — `<lines>` = esc of the esc'd lines joined by newline; `<table>` = `i:j:c:c2;…` giving the
   parse outcome of the concatenation of lines [i,j) and (c2 ≠ `-`) of the same text without its final newline.
-  Response `CH=<esc of the esc'd chunks joined by newline>`.
+  Response `CH=<esc of the esc'd chunks joined by newline> OFF=<line offset of each chunk>`.
 * `memo <fn> <file> <cap> <M> <F> <H>` — the cache definition `<fn>`/`<file>` of `Gen.Caches`; `M` = `name:slot,…`
   (which slot of a call `n.n.n.n` each parameter takes its value from), `F` = `call=v;…` (value of a fresh call),
   `H` = `call,call,…`. Response: the values returned along the history, `v,v,…`. -/
@@ -48,7 +48,8 @@ def handleAcc (ls tb : Str) : Str :=
   let lines := unescList ls
   let tbl := if tb = ['-'] then [] else (splitOnChar ';' tb).flatMap (tableEntries lines)
   let ch := chunks (needsMoreInput (lookupParse tbl)) lines
-  "CH=".toList ++ escList ch
+  -- OFF: the line offset in force while each chunk runs (`$LINENO` of its first line is offset + 1)
+  "CH=".toList ++ escList ch ++ " OFF=".toList ++ joinWith [','] ((offsets 0 ch).map natToStr)
 
 /-! memo -/
 open BrushVerif.Cache
